@@ -79,6 +79,11 @@ fn gen_c15(o: &mut Out, tier: &str, seed: u64) {
             o.op("acct.ctx.same-address", &format!("ix acct {} {} {} {} {}", vi, hex(&x), 7, hex(&y), hex(&y)));
         }
     }
+    // every integer-to-variant entry point (u8 … i128) around the boundaries of every width
+    for v in [-1i128, 0, 1, 12, 13, 14, 127, 128, 255, 256, 257, 268, 511, 512, 65535, 65536, 65537, 65548, (1 << 31) - 1, 1 << 31, (1i128 << 32) - 1,
+              1 << 32, (1 << 32) + 1, (1 << 32) + 12, (1i128 << 63) - 1, 1 << 63, (1i128 << 64) - 1, 1 << 64, (1 << 64) + 5, -12, -13, -128, -129, -255, -256, -32768, -(1i128 << 31), -(1i128 << 63), i128::MAX, i128::MIN] {
+        o.op("fromprim", &format!("ix fromprim {}", v));
+    }
     // decoders on arbitrary data: every first byte, lengths around each nominal size
     for b in 0..=255u32 {
         let mut d = vec![b as u8];
@@ -132,7 +137,13 @@ fn gen_c17(o: &mut Out, _tier: &str, seed: u64) {
     }
     for (pti, _, csz) in PT_SIZES {
         for tb in 0..13 {
-            o.op("encode", &format!("state encode {} {} {} {}", pti, hex(&r.bytes(32)), tb, hex(&r.bytes(csz))));
+            let (auth, ctx) = (r.bytes(32), r.bytes(csz));
+            o.op("encode", &format!("state encode {} {} {} {}", pti, hex(&auth), tb, hex(&ctx)));
+            // the account as the client lays it out (authority, type number, context) read through the SDK's typed
+            // reader and its header reader: the fields come back where the client put them
+            let mut acct = auth.clone(); acct.push(tb as u8); acct.extend(&ctx);
+            o.op("client-layout.typed-read", &format!("state decode {} {}", pti, hex(&acct)));
+            o.op("client-layout.header-read", &format!("state meta {}", hex(&acct)));
         }
         // a zeroed account of the declared size (allocated, not yet written): reads as Uninitialized
         let z = vec![0u8; 33 + csz];
